@@ -647,6 +647,66 @@ fn decode_only_cases(o: &mut Outcome, rng: &mut Rng) {
     }
 }
 
+/// Carriers finer than the column's resolution. A CQL `timestamp` counts milliseconds; `chrono::DateTime`
+/// and `time::OffsetDateTime` carry nanoseconds. The encoding of such a value is the instant the
+/// carrier's own calendar fields show down to the millisecond (digits below are dropped, so an instant
+/// before 1970 goes to the millisecond below it, never to the one above). The expectation is built
+/// from the model value `ms`; the carrier is `ms` plus 1..999 999 ns.
+fn subresolution_cases(o: &mut Outcome, rng: &mut Rng, n: usize) {
+    let t = MType::Timestamp;
+    let ct = to_col(&t);
+    let pool: [i64; 14] = [0, -1, 1, -999, -1000, -1001, 999, 1000, -86_400_000, -86_400_001, 1_700_000_000_123, -62_135_596_800_000, 253_402_300_799_998, -1_700_000_000_001];
+    for i in 0..n {
+        let ms = if i < pool.len() { pool[i] } else if rng.chance(1, 2) { rng.range(-5_000, 5_000) } else { rng.range(-62_135_596_800_000, 253_402_300_799_998) };
+        let sub = match i % 4 {
+            0 => 1,
+            1 => 999_999,
+            2 => 500_000,
+            _ => rng.range(1, 999_999),
+        };
+        let Some(expect) = m::encode_cell(&t, &MValue::Timestamp(ms)) else {
+            o.inconclusive("model cannot encode a timestamp");
+            return;
+        };
+        let replay = json!({"entry": "subresolution", "ms": ms, "sub_ns": sub});
+        if let Ok(odt) = time::OffsetDateTime::from_unix_timestamp_nanos(ms as i128 * 1_000_000 + sub as i128) {
+            // the expectation restated through the carrier's own calendar fields
+            if odt.unix_timestamp() * 1000 + odt.millisecond() as i64 != ms {
+                o.inconclusive(format!("time::OffsetDateTime calendar fields disagree with the model at {ms} ms + {sub} ns"));
+                return;
+            }
+            o.case(fw::hash64(format!("subms-time|{ms}|{sub}").as_bytes()), true);
+            o.class("carrier-subms:time::OffsetDateTime");
+            o.class(if ms < 0 { "carrier-subms:before-1970" } else { "carrier-subms:from-1970" });
+            match drv_ser(&odt, &ct) {
+                Ok(Ok(b)) if b == expect => {}
+                other => o.violation(
+                    "carrier:time::OffsetDateTime:ser:sub-millisecond",
+                    format!("{odt} (= {ms} ms + {sub} ns) bound to timestamp gives {}, expected {} ({ms} ms)", match &other { Ok(Ok(b)) => hx(b), x => format!("{x:?}") }, hx(&expect)),
+                    replay.clone(),
+                ),
+            }
+        }
+        let (secs, nanos) = (ms.div_euclid(1000), (ms.rem_euclid(1000) * 1_000_000 + sub) as u32);
+        if let Some(dt) = chrono::DateTime::<chrono::Utc>::from_timestamp(secs, nanos) {
+            if dt.timestamp() * 1000 + dt.timestamp_subsec_millis() as i64 != ms {
+                o.inconclusive(format!("chrono::DateTime calendar fields disagree with the model at {ms} ms + {sub} ns"));
+                return;
+            }
+            o.case(fw::hash64(format!("subms-chrono|{ms}|{sub}").as_bytes()), true);
+            o.class("carrier-subms:chrono::DateTime<Utc>");
+            match drv_ser(&dt, &ct) {
+                Ok(Ok(b)) if b == expect => {}
+                other => o.violation(
+                    "carrier:chrono::DateTime<Utc>:ser:sub-millisecond",
+                    format!("{dt} (= {ms} ms + {sub} ns) bound to timestamp gives {}, expected {} ({ms} ms)", match &other { Ok(Ok(b)) => hx(b), x => format!("{x:?}") }, hx(&expect)),
+                    replay.clone(),
+                ),
+            }
+        }
+    }
+}
+
 // ------------------------------------------------------------------ run
 
 fn value_opts(ctx: &Ctx) -> ValueOpts {
@@ -665,6 +725,10 @@ fn replay(ctx: &Ctx, path: &str) -> Outcome {
     let entry = r["entry"].as_str().unwrap_or("");
     if entry == "decode-only" {
         decode_only_cases(&mut o, &mut ctx.rng(0));
+        return o;
+    }
+    if entry == "subresolution" {
+        subresolution_cases(&mut o, &mut ctx.rng(0), 4000);
         return o;
     }
     let (Ok(t), Ok(v)) = (serde_json::from_value::<MType>(r["type"].clone()), serde_json::from_value::<MValue>(r["value"].clone())) else {
@@ -727,6 +791,9 @@ pub fn run(ctx: &Ctx) -> Outcome {
             }
         }
         if do_car {
+            if w == 0 {
+                subresolution_cases(&mut o, &mut rng, if ctx.miri() { 20 } else { 4000 });
+            }
             let n = (carrier_rounds / workers as u64).max(1);
             for _ in 0..n {
                 carriers::run_catalogue(&mut o, &mut rng);
@@ -782,6 +849,9 @@ pub fn run(ctx: &Ctx) -> Outcome {
     if do_car {
         for name in carriers::names() {
             out.require_class(&format!("carrier:{name}"));
+        }
+        for c in ["carrier-subms:time::OffsetDateTime", "carrier-subms:chrono::DateTime<Utc>", "carrier-subms:before-1970", "carrier-subms:from-1970"] {
+            out.require_class(c);
         }
     }
     out.exhaustive = Some(false);
